@@ -33,8 +33,11 @@ CASE_HEADER = ("From Coq Require Import ZArith List Bool String.\n"
 TRUSTED = [
     "Coq 8.16.1 kernel + vm_compute (no native_compute); Print Assumptions of every theorem in Props/C12.v: closed under the global context",
     "extractor harness/translate/c12.py: the bodies of InProcessOpInvoker.map, ProcessPoolOpInvoker.{__init__,map,_task_iter,shutdown}, worker.{initalize,worker}, "
-    "invoker, ModelOpInvoker.__exit__, SHMPickler._buffer_cb, shm_serialize, shm_deserialize, _run_pipeline, BatchPipelineRunner.run and BatchResults.add_result "
-    "must be exactly the expected statements (fails closed otherwise)",
+    "invoker, ModelOpInvoker.__exit__, SHMPickler.{__init__,_buffer_cb,reducer_override}, shm_serialize, shm_deserialize, _run_pipeline, BatchPipelineRunner.run and "
+    "BatchResults.add_result must be exactly the expected statements; SHMPickler has no other member and serialize.py no other module-level definition (fails closed otherwise)",
+    "NumPy contract (model's encode): ndarray.__reduce_ex__(5) ships an array that is an axis permutation of a C-ordered block out of band as that block (order C / F / K with "
+    "the axis order) and every other array in band; the harness reads the class of each generated array from the public result of __reduce_ex__(5), and the block bytes the "
+    "model predicts are compared with the bytes observed in every shared-memory block",
     "library contract (Section hypothesis of batch_is_sequential, discharged for the abstract pool by scheduler_order): Executor.map(fn, tasks) hands back fn(task) "
     "for every task in task order; the real scheduler is Python's concurrent.futures and is exercised, not verified",
     "pickle protocol 5 contract: pickle.loads(data, buffers=bs) rebuilds the object when bs are, in order, equal to the buffers the pickler passed to buffer_callback",
@@ -47,10 +50,13 @@ ASSUMPTIONS = [
     "(only checked to be a correct prefix)",
 ]
 RULE = ("seq: 1-9 tasks, failing position anywhere or none; pool: n_jobs in {2,3,5,16} (quick) with task counts below / at / above the worker count, duplicate tasks, "
-        "decreasing delays, a failing task at a chosen position, models holding ndarrays (incl. zero-length), dense, COO, CSR and CSC tensors whose content hash is "
-        "computed inside the worker; shm: trees of 0-6 array payloads of 0-40 bytes, page sizes 1/64/4096; batch: 3 scorers x recommend/score/predict, id / dict / "
+        "decreasing delays, a failing task at a chosen position, every pool model holding ndarrays of every memory layout (C, Fortran, transposed view, permuted axes, "
+        "every-second slice, negative stride, inner columns, inner rows of a Fortran block, broadcast; 0-4 dims incl. 0-d and empty; 19 dtypes incl. big-endian, strings, "
+        "date-times, structured; read-only) and dense (transposed, strided, 0-d, empty; 9 dtypes), COO (coalesced, repeated entry, unsorted), CSR/CSC (32/64-bit indices), "
+        "BSR and BSC tensors, nested, whose content hashes are computed inside the worker and compared leaf by leaf; shm: trees of 0-6 payloads (vectors of 0-40 bytes, arrays "
+        "of any layout up to 12 elements, tensors), page sizes 1/64/4096; batch: 3 scorers x recommend/score/predict, id / dict / "
         "collection test data with 1-2 key fields (with or without user_id), duplicate keys, 0-6 keys, n_jobs 1 (and 2,3 through the driver), a component failing "
-        "for one key; non-trivial = a pool case, or a map with >= 3 tasks, or a batch with >= 2 keys, or a tree with >= 2 payloads one of which is empty or padded; "
+        "for one key; non-trivial = a pool case, or a map with >= 3 tasks, or a batch with >= 2 keys, or a tree with >= 2 payloads one of which is empty or padded, or a tree holding an array that is not C-ordered or a tensor; "
         "distinct = by hash of the case")
 
 HARNESS = os.path.dirname(os.path.dirname(os.path.abspath(__file__)))
@@ -69,6 +75,73 @@ def translate():
 # generators
 # ---------------------------------------------------------------------------------------------
 
+ND_DTYPES = ["float64", "float32", "int32", "int64", "uint8", "bool", "int8", "uint16", "uint64", "float16", "complex64", "complex128", ">i4", ">f8",
+             "<U2", "S3", "datetime64[s]", "timedelta64[ms]", [["a", "<i4"], ["b", "<f8"]]]
+ND_LAYOUTS = ["C", "F", "T", "perm", "step", "neg", "cols", "frows", "bcast"]
+ND_SHAPES = [[], [0], [1], [3], [5], [2, 3], [3, 2], [1, 4], [4, 1], [0, 3], [3, 0], [2, 2], [2, 3, 4], [3, 1, 2], [2, 2, 2], [2, 0, 2], [2, 3, 2, 2]]
+
+
+def gen_nd(rng, layout=None, max_elems=24, min_dims=0):
+    "an ndarray leaf: dtype x shape (0-4 dims, also empty and 0-d) x memory layout x read-only"
+    lay = layout or rng.choice(ND_LAYOUTS)
+    need = max(min_dims, {"C": 0, "bcast": 1, "step": 1, "neg": 1, "cols": 1, "F": 2, "T": 2, "frows": 2, "perm": 3}[lay])
+    shapes = [sh for sh in ND_SHAPES if len(sh) >= need and _prod(sh) <= max_elems]
+    proper = [sh for sh in shapes if sh and min(sh) >= 2]          # no empty or unit axis: the layout is what its name says
+    shape = list(rng.choice(proper if proper and rng.chance(3, 4) else shapes))
+    if lay == "C" and not min_dims and rng.chance(1, 8):
+        shape = []                                                   # 0-d
+    leaf = {"kind": "nd", "dtype": rng.choice(ND_DTYPES[:5]) if rng.chance(1, 2) else rng.choice(ND_DTYPES), "shape": shape,
+            "data": [rng.randint(0, 100) for _ in range(_prod(shape))], "layout": lay, "readonly": rng.chance(1, 6)}
+    if lay == "perm":
+        axes = rng.shuffle(list(range(len(shape))))
+        if axes == sorted(axes) or axes == sorted(axes, reverse=True):
+            axes = axes[1:] + axes[:1]
+        leaf["axes"] = axes
+    return leaf
+
+
+def _prod(sh):
+    n = 1
+    for d in sh:
+        n *= d
+    return n
+
+
+T_DTYPES = ["float32", "float64", "int64", "int32", "float16", "bfloat16", "bool", "uint8", "complex64"]
+
+
+def gen_tensor(rng, kind=None):
+    "a tensor leaf: dense (dtype, transposed / strided / 0-d / empty) or sparse (COO coalesced or not, CSR/CSC with 32- or 64-bit indices, BSR/BSC)"
+    kind = kind or rng.choice(["dense", "dense", "coo", "coo", "csr", "csc", "bsr", "bsc"])
+    r, c = rng.randint(1, 3), rng.randint(2, 4)
+    data = [rng.choice([0, 0, 1, 2, 5]) for _ in range(r * c)]
+    if not any(data) and not rng.chance(1, 3):          # sometimes no stored element at all
+        data[0] = 3
+    leaf = {"kind": kind, "shape": [r, c], "data": [float(x) for x in data]}
+    if kind == "dense":
+        leaf["tdtype"] = rng.choice(T_DTYPES)
+        leaf["tlayout"] = rng.choice(["C", "C", "T", "step", "0d"])
+        if rng.chance(1, 8):
+            leaf["shape"], leaf["data"], leaf["tlayout"] = [0, c], [], "C"
+    else:
+        leaf["tdtype"] = rng.choice(["float32", "float32", "float64", "int64"])
+        if kind == "coo":
+            leaf["coalesced"] = rng.choice([True, True, "dup", "unsorted"])
+        if kind in ("csr", "csc"):
+            leaf["idx32"] = rng.chance(1, 3)
+    return leaf
+
+
+def gen_payloads(rng):
+    "every memory layout of an ndarray and every tensor representation once, in random order, some nested"
+    leaves = [gen_nd(rng, lay) for lay in ND_LAYOUTS] + [gen_nd(rng, "C", min_dims=0) for _ in range(2)] + [gen_nd(rng, "F", min_dims=3)]
+    leaves += [gen_tensor(rng, k) for k in ["dense", "dense", "dense", "coo", "coo", "csr", "csc", "bsr", "bsc"]]
+    leaves += [{"kind": "coo", "shape": [2, 3], "data": [0.0, 1.0, 0.0, 2.0, 0.0, 3.0], "tdtype": "float32", "coalesced": rng.choice(["dup", "unsorted"])}]
+    leaves = rng.shuffle(leaves)
+    k = rng.randint(2, 5)
+    return {"flat": leaves[k:], "deep": {"inner": leaves[:k], "tag": {"kind": "py", "value": "t"}}}
+
+
 def gen_model(rng, rich):
     m = {"k": {"kind": "py", "value": rng.randint(0, 9)}}
     n = rng.randint(0, 3)
@@ -77,15 +150,9 @@ def gen_model(rng, rich):
         ln = rng.weighted([(0, 1), (1, 1), (3, 2), (5, 2), (8, 1)])
         m[f"a{j}"] = {"kind": "nd", "dtype": dt, "shape": [ln], "data": [rng.randint(0, 100) for _ in range(ln)]}
     if rng.chance(1, 2):
-        r, c = rng.randint(1, 3), rng.randint(1, 3)
-        m["m2"] = {"kind": "nd", "dtype": "float64", "shape": [r, c], "data": [rng.randint(0, 9) for _ in range(r * c)]}
+        m["m2"] = gen_nd(rng, min_dims=2)
     if rich:
-        for kind in rng.sample(["dense", "coo", "csr", "csc"], rng.randint(1, 4)):
-            r, c = rng.randint(1, 3), rng.randint(2, 4)
-            data = [rng.choice([0, 0, 1, 2, 5]) for _ in range(r * c)]
-            if not any(data):
-                data[0] = 3
-            m["t_" + kind] = {"kind": kind, "shape": [r, c], "data": [float(x) for x in data]}
+        m["payloads"] = gen_payloads(rng)
         m["nest"] = [{"kind": "nd", "dtype": "uint8", "shape": [2], "data": [rng.randint(0, 255), 7]}, {"kind": "py", "value": "s"}]
     return m
 
@@ -146,12 +213,17 @@ def gen_pool_case(rng, n_jobs, kill=False):
 def gen_shm_case(rng):
     leaves = []
     for _ in range(rng.weighted([(0, 1), (1, 2), (2, 3), (4, 2), (6, 1)])):
-        if rng.chance(1, 4):
+        r = rng.below(12)
+        if r < 2:
             leaves.append({"kind": "py", "value": rng.randint(-5, 5)})
-        else:
+        elif r < 5:                               # the plain case: a short vector
             dt = rng.choice(["uint8", "int16", "int32", "float32", "float64"])
             ln = rng.weighted([(0, 2), (1, 2), (2, 2), (3, 2), (5, 1)])
             leaves.append({"kind": "nd", "dtype": dt, "shape": [ln], "data": [rng.randint(0, 100) for _ in range(ln)]})
+        elif r < 10:                              # any dtype, shape and memory layout
+            leaves.append(gen_nd(rng, max_elems=12))
+        else:
+            leaves.append(gen_tensor(rng))
     nest = rng.chance(1, 2)
     return {"kind": "shm", "leaves": leaves, "nest": nest, "page": rng.choice([1, 64, 4096])}
 
@@ -207,14 +279,14 @@ def gen_batch_case(rng, n_jobs=1):
 def gen_cases(rng, tier):
     quick = tier == "quick"
     cases = []
-    pools = [2, 3, 5, 16] if quick else [2, 3, 5, 16] * 10 + [2, 4, 7, 8]
+    pools = [2, 3, 5, 16] if quick else [2, 3, 5, 16] * 6 + [2, 4, 7, 8]     # every pool model carries every payload class (~25 leaves)
     for j, nj in enumerate(pools):
         cases.append(gen_pool_case(rng.fork(("pool", j)), nj, kill=(j % 4 == 1)))
     for j in range(2 if quick else 16):
         cases.append(gen_batch_case(rng.fork(("bpool", j)), n_jobs=[2, 3, 5][j % 3]))
     for j in range(60 if quick else 600):
         cases.append(gen_seq_case(rng.fork(("seq", j))))
-    for j in range(150 if quick else 2000):
+    for j in range(150 if quick else 1500):
         cases.append(gen_shm_case(rng.fork(("shm", j))))
     for j in range(60 if quick else 500):
         cases.append(gen_batch_case(rng.fork(("batch", j))))
@@ -320,20 +392,30 @@ def run_shm(case):
 
     import c12_tasks
     from lenskit.parallel.serialize import shm_deserialize, shm_serialize
-    obj = c12_tasks.build_payload(_shm_payload(case))
+    spec = _shm_payload(case)
+    obj = c12_tasks.build_payload(spec)
+    want = c12_tasks.digest(obj)
     mgr = PadMgr(case["page"])
+    out = {"shapes": [], "payloads": [], "roundtrip_ok": False, "error": None, "changed": [], "stage": None}
     try:
-        d = shm_serialize(obj, mgr)
-        shapes = [[None if s is None else s.size, n] for s, n in d.buffers]
+        try:
+            d = shm_serialize(obj, mgr)
+        except Exception as e:
+            out["error"], out["stage"] = type(e).__name__, "serialize"
+            out["changed"] = [[p, c] for p, c in c12_tasks.failing_leaves(spec, obj)]
+            return out
+        out["shapes"] = [[None if s is None else s.size, n] for s, n in d.buffers]
+        out["payloads"] = [[] if s is None else list(bytes(s.buf[:n])) for s, n in d.buffers]
         try:
             back = shm_deserialize(d)
-            same = c12_tasks.digest(back) == c12_tasks.digest(obj)
-            err = None
+            got = c12_tasks.digest(back)
+            out["roundtrip_ok"] = got == want
+            out["changed"] = [[p, c, w, g] for p, c, w, g in c12_tasks.changed_leaves(spec, want, got)]
             del back
         except Exception as e:
-            same, err = False, type(e).__name__
+            out["error"], out["stage"] = type(e).__name__, "deserialize"
         gc.collect()
-        return {"shapes": shapes, "roundtrip_ok": same, "error": err}
+        return json.loads(json.dumps(out))
     finally:
         mgr.close()
 
@@ -381,6 +463,8 @@ def _schedule(results, n_tasks):
 
 
 def term_maps(case, obs):
+    if obs.get("setup_error"):
+        return "false"                                 # the model transports every model
     terms = []
     for tasks, m, exp in zip(case["maps"], obs["maps"], obs["expected"]):
         if any(t.get("kill") for t in tasks):
@@ -399,12 +483,16 @@ def term_maps(case, obs):
     return "(" + " && ".join(terms or ["true"]) + ")"
 
 
-def _bytes_of(leaf):
-    import numpy as np
-    return np.array(leaf["data"], dtype=np.dtype(leaf["dtype"])).reshape(leaf["shape"]).tobytes()
+def _nd_leaves(spec):
+    if isinstance(spec, list):
+        return [x for sp in spec for x in _nd_leaves(sp)]
+    if spec.get("kind") is None:
+        return [x for sp in spec.values() for x in _nd_leaves(sp)]
+    return [spec] if spec["kind"] == "nd" else []
 
 
 def _tree(spec):
+    import c12_tasks
     if isinstance(spec, list):
         return "(TNode [" + "; ".join(_tree(s) for s in spec) + "])"
     k = spec.get("kind")
@@ -412,14 +500,22 @@ def _tree(spec):
         return "(TNode [" + "; ".join(_tree(s) for s in spec.values()) + "])"
     if k == "py":
         return f"(TAtom {cz(int(spec['value']))})"
-    return "(TBuf " + clist(list(_bytes_of(spec)), cnat) + ")"
+    if k != "nd":
+        return "(TAtom 0)"                     # tensors travel through torch's reducers (contract), not through the blocks
+    info = c12_tasks.nd_info(c12_tasks.build_nd(spec))
+    tr = info["transport"]
+    trs = f"(OutOfBand {clist(tr[1], cnat)} {clist(tr[2], cnat)})" if tr[0] == "oob" else "InBand"
+    return f"(TArr {trs} {cnat(info['isz'])} {clist(info['shape'], cnat)} {clist(info['elems'], lambda e: clist(e, cnat))})"
 
 
 def term_shm(case, obs):
+    if obs.get("stage") == "serialize":
+        return "false"                             # the model serialises every tree
     pads = [0 if s is None else s - n for s, n in obs["shapes"]]
     shapes = clist(obs["shapes"], lambda sn: f"({copt(sn[0], cnat)}, {cnat(sn[1])})")
+    payloads = clist(obs["payloads"], lambda b: clist(b, cnat))
     # the pad of the i-th *buffer* is looked up by the model's running buffer number, which also counts empty ones
-    return f"agree_shm {_tree(_shm_payload(case))} {clist(pads, cnat)} {shapes} {cbool(obs['roundtrip_ok'])}"
+    return f"agree_shm {_tree(_shm_payload(case))} {clist(pads, cnat)} {shapes} {payloads} {cbool(obs['roundtrip_ok'])}"
 
 
 NODE = {"recommend": "recommender", "score": "scorer", "predict": "rating-predictor"}
@@ -483,6 +579,18 @@ def coq_term(case, obs):
 
 def oracle_maps(case, obs):
     v = []
+    if obs.get("setup_error"):
+        for path, cls in obs.get("not_serialisable") or [["model", "?"]]:
+            v.append((f"{case['kind']}:model-not-transported:{cls}", f"invoker(model, f, n_jobs={case['n_jobs']}) raised {obs['setup_error']}: the {cls} payload at {path} "
+                      f"cannot be sent to the workers ({_leaf_at(case['model'], path)}); with n_jobs=1 the same model works"))
+        return v
+    for r in (r for m in obs["maps"] for r in m["results"]):          # what arrived in the workers, leaf by leaf
+        changed = _changed(case, obs, r)
+        for path, cls, w, g in changed[:3]:
+            v.append((f"{case['kind']}:payload-changed:{cls}", f"n_jobs={case['n_jobs']}, task {r['id']} in process {r.get('pid')}: the {cls} payload at {path} is not what "
+                      f"the caller passed: sent {w}, arrived {g}; spec {_leaf_at(case['model'], path)}"))
+        if changed:
+            break
     for mi, (tasks, m, exp) in enumerate(zip(case["maps"], obs["maps"], obs["expected"])):
         bad = next((i for i, t in enumerate(tasks) if t.get("fail") or t.get("kill")), None)
         got = [_strip(r) for r in m["results"]]
@@ -520,15 +628,43 @@ def oracle_maps(case, obs):
     return v
 
 
+def _changed(case, obs, result):
+    import c12_tasks
+    want = next((e["digest"] for exp in obs["expected"] for e in exp if e is not None), None) or obs.get("model_digest")
+    if want is None or result.get("digest") == want:
+        return []
+    return c12_tasks.changed_leaves(case["model"], want, result.get("digest"))
+
+
 def oracle_shm(case, obs):
     v = []
-    leaves = [l for l in case["leaves"] if l.get("kind") == "nd"]
-    want = [len(_bytes_of(l)) for l in leaves]
-    if [n for _, n in obs["shapes"]] != want:
-        v.append(("shm:buffer-lengths", f"recorded payload lengths {[n for _, n in obs['shapes']]} differ from the arrays' {want}"))
-    if not obs["roundtrip_ok"]:
-        v.append(("shm:roundtrip", f"shm_deserialize(shm_serialize(model)) differs from the model (page {case['page']}, error {obs['error']})"))
+    if obs.get("stage") == "serialize":
+        for path, cls in obs["changed"] or [["model", "?"]]:
+            v.append((f"shm:not-serialisable:{cls}", f"shm_serialize raised {obs['error']} for a model holding a {cls} payload at {path}"))
+        return v
+    if any((sz is None) != (n == 0) or (sz is not None and sz < n) for sz, n in obs["shapes"]):
+        v.append(("shm:buffer-lengths", f"(block size, recorded payload length) pairs {obs['shapes']}: a payload does not fit its block, or an empty one has a block"))
+    if obs["error"]:
+        v.append(("shm:roundtrip", f"shm_deserialize(shm_serialize(model)) raised {obs['error']} (page {case['page']})"))
+    elif not obs["roundtrip_ok"]:
+        for path, cls, w, g in obs["changed"][:3]:
+            v.append((f"shm:roundtrip:{cls}", f"shm_deserialize(shm_serialize(model)): the {cls} payload at {path} came back changed (page {case['page']}): "
+                      f"sent {w}, got {g}; spec {_leaf_at(_shm_payload(case), path)}"))
+        if not obs["changed"]:
+            v.append(("shm:roundtrip", f"shm_deserialize(shm_serialize(model)) differs from the model (page {case['page']})"))
     return v
+
+
+def _leaf_at(spec, path):
+    import re
+    cur = spec
+    for m in re.finditer(r"\.([A-Za-z_0-9]+)|\[(\d+)\]", path[len("model"):]):
+        cur = cur[m.group(1)] if m.group(1) is not None else cur[int(m.group(2))]
+    if isinstance(cur, dict) and cur.get("kind") == "nd":
+        return {k: cur[k] for k in ("dtype", "shape", "layout", "readonly", "axes") if k in cur}
+    if isinstance(cur, dict) and "kind" in cur:
+        return {k: cur[k] for k in cur if k != "data"}
+    return "?"
 
 
 def oracle_batch(case, obs):
@@ -578,7 +714,8 @@ def nontrivial(case, obs):
     if k == "seq":
         return any(len(t) >= 3 for t in case["maps"])
     if k == "shm":
-        return len(obs["shapes"]) >= 2 and any(s is None or s > n for s, n in obs["shapes"])
+        return (len(obs["shapes"]) >= 2 and any(s is None or s > n for s, n in obs["shapes"])) or \
+            any(c not in ("nd:C", "nd:0d") for c in _leaf_classes(case["leaves"]))
     return len(case["keys"]) >= 2
 
 
@@ -600,10 +737,11 @@ def counters(case, obs):
                 yield f"{k}:map-used-several-workers"
             if m["error"] is None and [r["t1"] for r in m["results"]] != sorted(r["t1"] for r in m["results"]):
                 yield f"{k}:completion-order-differs-from-task-order"
-        for name, s in case["model"].items():
-            if isinstance(s, dict) and s.get("kind") not in (None, "py"):
-                yield f"{k}:payload={s['kind']}"
+        for cls in sorted({c for c in _leaf_classes(case["model"])}):
+            yield f"{k}:payload={cls}"
     elif k == "shm":
+        for cls in sorted({c for c in _leaf_classes(case["leaves"])}):
+            yield f"shm:payload={cls}"
         yield "shm:page=" + str(case["page"])
         yield "shm:buffers=" + str(min(len(obs["shapes"]), 5))
         if any(s is None for s, _ in obs["shapes"]):
@@ -620,6 +758,15 @@ def counters(case, obs):
             yield "batch:duplicate-keys"
         if case["fail_user"] is not None:
             yield "batch:failing-component=" + str(case.get("fail_exc"))
+
+
+def _leaf_classes(spec):
+    import c12_tasks
+    if isinstance(spec, list):
+        return [c for sp in spec for c in _leaf_classes(sp)]
+    if spec.get("kind") is None:
+        return [c for sp in spec.values() for c in _leaf_classes(sp)]
+    return [] if spec["kind"] == "py" else [c12_tasks.leaf_class(spec)]
 
 
 def sample(case, obs):
